@@ -24,6 +24,7 @@ CONSTANTS
   Styles = {"Title"}
   MLs = {3}
   TSLvls = {1}
+  Files = {FALSE}
   MaxK = 2
   Depth = 0
   MaxItems = 2
